@@ -46,6 +46,7 @@ PROP = [  # (subject fragment, property ids, key that used to be reported)
  ("raw line of a combined diff with a non-ASCII prefix column panicked", 'C03', "panic|...superimpose|String mismatch...|via:delta::handlers::hunk::*handle_hunk_line ('@@@@@ -6@' + '<9F>+z >', found by the thorough tier)"),
  ("two enormous lines of tabs or zero-width characters aborted delta", 'C03', "signal|6 (memory allocation failed in align::Alignment::new: removed and added line of 2^20 tabs each; found by the huge-input items of the thorough tier)"),
  ("file header of a rename or copy kept git's quotes around a quoted path", 'C14', "c14:header-text:renamed / renamed_changed / copied (path quoted by git on the rename/copy lines shown with its quotes)"),
+ ("blame line with a one-character author name was not recognised", 'C17', "c17:separator / c17:row-count (blame line whose author is a single character passed through unrendered)"),
 ]
 log = subprocess.run(['git', '-C', '/repo', 'log', '--format=%H%x09%s', '--reverse'], stdout=subprocess.PIPE).stdout.decode().splitlines()
 fixes = [l.split('\t', 1) for l in log if '\tfix:' in l]
